@@ -62,11 +62,12 @@ def generate(rng, tier):
     n = 45 if tier == "quick" else 700
     cases = []
     D = sc.DAY
-    corpus = [c01.CORPUS[0], c01.CORPUS[1], c01.CORPUS[2],
+    corpus = [c01.CORPUS[0], c01.CORPUS[1], c01.CORPUS[2], c01.CORPUS[3],
               # one output fanning out behind a shared pass-through adapter to consumers with different steps
               {"comps": [{"kind": "T", "start": 0, "steps": [D], "initpull": False, "nout": 1, "inputs": [], "shared_out": [0]},
                          {"kind": "T", "start": 0, "steps": [D], "initpull": True, "nout": 0, "inputs": [{"src": [0, 0], "chain": []}]},
-                         {"kind": "T", "start": 0, "steps": [2 * D], "initpull": False, "nout": 0, "inputs": [{"src": [0, 0], "chain": []}]}],
+                         {"kind": "T", "start": 0, "steps": [2 * D], "initpull": False, "nout": 0,
+                          "inputs": [{"src": [0, 0], "chain": [], "meta": {"long_name": "level"}}]}],
                "end": 6 * D}]
     for i in range(n + len(corpus)):
         if i < len(corpus):
@@ -75,6 +76,17 @@ def generate(rng, tier):
             base = _strip_topush(sc.gen_ring(rng, sufficient=True))
         else:
             base = _strip_topush(sc.gen_dag(rng))
+        # extra metadata attributes declared by single consumers (the producers do not know them)
+        readers = {}
+        for k, c in enumerate(base["comps"]):
+            if c["kind"] != "T":
+                continue
+            for ii, inp in enumerate(c["inputs"]):
+                readers.setdefault(tuple(inp["src"]), []).append((k, ii))
+        for src, rl in readers.items():
+            if len(rl) >= 2 and rng.random() < 0.6:
+                k, ii = rng.choice(rl)
+                base["comps"][k]["inputs"][ii] = dict(base["comps"][k]["inputs"][ii], meta={"long_name": f"attr{k}"})
         t0 = min(c["start"] for c in base["comps"] if c["kind"] == "T")
         if base["end"] <= t0:
             # run(end) with end <= start performs exactly one update (do-while) of whichever component is listed
@@ -116,7 +128,10 @@ def _canon(case, v, o):
         times[order[k]] = o["times"][k]
         recv[order[k]] = o["received"][k]
     inits = sorted([order[x[0]], x[1], x[2], x[3]] for x in o["init_times"])
-    return {"outcome": (o["phase"], o["outcome"]), "times": times, "received": recv, "inits": inits}
+    infos = [None] * n
+    for k in range(n):
+        infos[order[k]] = o["infos"][k]
+    return {"outcome": (o["phase"], o["outcome"]), "times": times, "received": recv, "inits": inits, "metadata": infos}
 
 
 def monitor(case, obs):
@@ -131,7 +146,7 @@ def monitor(case, obs):
         if ref is None:
             ref = (v, c)
             continue
-        for key in ("outcome", "inits", "times", "received"):
+        for key in ("outcome", "inits", "metadata", "times", "received"):
             if c[key] != ref[1][key]:
                 return (f"{key} differs between listing order {ref[0]['order']} / link order {ref[0]['link_order']} and "
                         f"listing order {v['order']} / link order {v['link_order']}: {str(ref[1][key])[:300]} vs {str(c[key])[:300]}")
